@@ -68,6 +68,17 @@ var strTab = []string{"undefined", "number", "boolean", "string", "function", "o
 
 func nm(x int) string { return nameTab[x] }
 
+// markFuncs: print every function body with a leading `__z;` (a read of an outer lexical binding), used only
+// for the allocation read-back so that every function scope is reachable from the top scope's access points
+var markFuncs bool
+
+func fmark() string {
+	if markFuncs {
+		return " __z;"
+	}
+	return ""
+}
+
 // ---------------------------------------------------------------------------------------------
 // printers
 
@@ -100,9 +111,9 @@ func (e *Expr) js() string {
 		return "(typeof " + nm(e.X) + ")"
 	case "fun":
 		if e.Arr {
-			return "((" + nm(e.X) + ") => {" + e.Body.js(1) + "})"
+			return "((" + nm(e.X) + ") => {" + fmark() + e.Body.js(1) + "})"
 		}
-		return "(function (" + nm(e.X) + ") {" + e.Body.js(1) + "})"
+		return "(function (" + nm(e.X) + ") {" + fmark() + e.Body.js(1) + "})"
 	case "call":
 		return e.A.js() + "(" + e.B.js() + ")"
 	case "seq":
@@ -159,7 +170,7 @@ func (s *Stmt) js(ind int) string {
 	case "const":
 		return pad + "const " + nm(s.X) + " = " + s.E.js() + ";"
 	case "fundecl":
-		return pad + "function " + nm(s.X) + "(" + nm(s.Px) + ") {" + s.S1.js(0) + " }"
+		return pad + "function " + nm(s.X) + "(" + nm(s.Px) + ") {" + fmark() + s.S1.js(0) + " }"
 	case "block":
 		return pad + "{" + s.S1.js(0) + " }"
 	case "if":
@@ -176,6 +187,62 @@ func (s *Stmt) js(ind int) string {
 		return pad + "try " + s.S1.js(0) + " catch (" + nm(s.X) + ") " + s.S2.js(0)
 	}
 	panic("stmt kind " + s.K)
+}
+
+func (e *Expr) nfun() int {
+	if e == nil {
+		return 0
+	}
+	n := e.A.nfun() + e.B.nfun() + e.C.nfun() + e.Body.nfun()
+	if e.K == "fun" {
+		n++
+	}
+	return n
+}
+
+func (s *Stmt) nfun() int {
+	if s == nil {
+		return 0
+	}
+	n := s.E.nfun() + s.E2.nfun() + s.E3.nfun() + s.S1.nfun() + s.S2.nfun()
+	for _, t := range s.List {
+		n += t.nfun()
+	}
+	if s.K == "fundecl" {
+		n++
+	}
+	return n
+}
+
+// allocTie reads goja's own stack/stash decision for the program back (hook VerifC02AllocCheck) and checks
+// the rule of the model's valid_alloc on it.  Returns coverage tags and a non-empty message on a violation.
+func allocTie(c FragCase) ([]string, string) {
+	markFuncs = true
+	src := "let __z = 0; (function () { \"use strict\"; __z;" + c.Prog.js(0) + " })()"
+	markFuncs = false
+	rep, err := goja.VerifC02AllocCheck(src)
+	if err != nil {
+		return []string{"alloctie:compile_error"}, ""
+	}
+	tags := []string{"alloctie:checked"}
+	if rep.Funcs == c.Prog.nfun()+1 {
+		tags = append(tags, "alloctie:all_functions_reached")
+	} else {
+		tags = append(tags, "alloctie:some_functions_unreached")
+	}
+	if rep.CrossRefs > 1 {
+		tags = append(tags, "alloctie:has_captured")
+	}
+	if len(rep.Stashed) > 0 {
+		tags = append(tags, "alloctie:has_stash_binding")
+	}
+	if rep.StackBindings > 0 {
+		tags = append(tags, "alloctie:has_stack_binding")
+	}
+	if len(rep.Violations) > 0 {
+		return tags, "ALLOC-TIE VIOLATION (goja's allocation is not a valid_alloc): " + strings.Join(rep.Violations, "; ") + " || src: " + src
+	}
+	return tags, ""
 }
 
 func cN(i int) string { return fmt.Sprintf("%d%%N", i) }
@@ -622,7 +689,7 @@ func (g *fgen) genBlockBody(n int, depth int, fnTop bool) *Stmt {
 			case g.r.Chance(15) && depth >= 1:
 				init = g.genFunLit(depth - 1)
 				isFun = true
-			case g.r.Chance(6):
+			case g.r.Chance(18):
 				init = konst("str", 7) // "2": ++/-- on it needs ToNumber
 				sl.b.holdsStr = true
 			case g.r.Chance(8):
@@ -652,7 +719,7 @@ func (g *fgen) varDecls(pre []int, depth int) []*Stmt {
 	var out []*Stmt
 	for _, v := range pre {
 		var init *Expr
-		switch g.r.Pick(6, 29, 65) {
+		switch g.r.Pick(20, 15, 65) {
 		case 0:
 			init = konst("str", 7)
 			if b := g.resolve(v); b != nil {
@@ -701,7 +768,7 @@ func (g *fgen) genStmt(depth int) *Stmt {
 		}
 		return &Stmt{K: "expr", E: g.genEffect(1)}
 	}
-	switch g.r.Pick(22, 20, 8, 9, 5, 8, 3, 7, 3, 2, 4) {
+	switch g.r.Pick(22, 20, 8, 9, 5, 8, 3, 7, 3, 5, 4) {
 	case 0:
 		return &Stmt{K: "log", E: g.genExpr(depth)}
 	case 1:
@@ -1049,6 +1116,14 @@ func runFrag(c FragCase, feats []string) vh.Record {
 	}
 	term := fmt.Sprintf("TFrag %d%%N %s (%s, %s)", c.Place, c.Prog.coq(), vh.CoqList(logT), resT)
 	tags := []string{"frag", fmt.Sprintf("place:%d", c.Place), "outcome:" + outcome}
+	tieTags, tieMsg := allocTie(c)
+	tags = append(tags, tieTags...)
+	if tieMsg != "" {
+		if len(tieMsg) > 1900 {
+			tieMsg = tieMsg[:1900]
+		}
+		return vh.Record{Case: vh.MustJSON(c), Coq: failTerm, Obs: tieMsg, Tags: append(tags, "alloctie:VIOLATION"), Nontrivial: true}
+	}
 	for _, f := range feats {
 		tags = append(tags, "feat:"+f)
 	}
